@@ -106,7 +106,9 @@ def aggregation_contracts():
         types={"self": "obj:Result", "self._csvpath": "obj:CsvPath", "self._runtime_data": "none"},
         ensures={"run_member_reports_its_csvpath": "implies(self._csvpath._run_started_at is not None, result == self._csvpath._is_valid)"},
         inline=["CsvPath.run_started_at", "CsvPath.is_valid"], returns="bool", class_fields=CF, macros=MACROS,
-        property_clauses={"run_member_reports_its_csvpath": "C04"}, native={"skip": True}))
+        property_clauses={"run_member_reports_its_csvpath": "C04"}, native={"skip": True},
+        doc={"run_member_reports_its_csvpath": "C04: 'results_manager.is_valid(name) ... the conjunction of the members' verdicts' -- for a member whose csvpath has started; a csvpath "
+                                               "that never started (a by-line run over a zero-byte file) is answered False whatever its verdict: recorded KNOWN-FINDING, exercised by bounded_C04"}))
     return cs
 
 
